@@ -132,7 +132,7 @@ TABLE = [dict(P=p_, U=u_, W=w_, **{ARG: p_ + u_ + w_}) for p_ in [""] + PFX for 
 TABLE_ATOMIC = [dict(P=d["P"], U=d["U"], W=d["W"], unit=d["combined_unit"]) for d in TABLE]
 
 REG.contract(
-    "nixio.util.units.split#table", props=["C09"],
+    "nixio.util.units.split#table", replay=dict(harness="c09_units"), props=["C09"],
     params=dict(combined_unit=Str), result=TupleOf(Str, Str, Str),
     instances=TABLE,
     requires=["combined_unit == P + U + W"],
@@ -144,7 +144,7 @@ REG.contract(
     prop_clauses=["split.prefix", "split.unit", "split.power"])
 
 REG.contract(
-    "nixio.util.units.is_atomic#table", props=["C09"], note="truthy_result",
+    "nixio.util.units.is_atomic#table", replay=dict(harness="c09_units"), props=["C09"], note="truthy_result",
     params=dict(unit=Str), result=Bool,
     instances=TABLE_ATOMIC,
     requires=["unit == P + U + W"],
@@ -161,7 +161,7 @@ def si(x):
 SCALABLE = ("(%s and %s and split_u(a) == split_u(b) and split_w(a) == split_w(b))" % (si("a"), si("b")))
 
 REG.contract(
-    "nixio.util.units.scalable#str", props=["C09"],
+    "nixio.util.units.scalable#str", replay=dict(harness="c09_units"), props=["C09"],
     params=dict(units_a=Str, units_b=Str), result=Bool,
     let="a = units_a; b = units_b",
     # property: same base unit and power <=> scalable
@@ -175,7 +175,7 @@ REG.contract(
     note="string form; verified as nixio.util.units.scalable#str (the list form is the pointwise conjunction)")
 
 REG.contract(
-    "nixio.util.units.scaling", props=["C09", "C08"],
+    "nixio.util.units.scaling", replay=dict(harness="c09_units"), props=["C09", "C08"],
     params=dict(origin=Str, destination=Str), result=Real,
     let="a = origin; b = destination; pa = split_p(a); pb = split_p(b); na = split_w(a)",
     requires=["pa == '' or any(pa == x for x in PFX_LIST)", "pb == '' or any(pb == x for x in PFX_LIST)"],
